@@ -79,6 +79,9 @@ class AlgoAddrDecoder(IAddrDecoder):
             ValueError: If the address encoding is not valid
         """
 
+        # Algorand addresses are not padded
+        if "=" in addr:
+            raise ValueError("Invalid address (padding characters are not allowed)")
         # Decode from base32
         addr_dec_bytes = Base32Decoder.Decode(addr)
         # Validate length
